@@ -55,14 +55,15 @@ func genAltSvc(r *hk.Rand) string {
 
 var chalAlphabet = []string{"Digest ", "Digest", "realm", "nonce", "qop", "algorithm", "opaque", "charset", "userhash", "stale", "domain", "=", "=", "\"", "\"", ",", ", ", " ", "auth", "auth-int", "MD5", "SHA-256", "SHA-512-256", "-sess", "UTF-8", "\\", "\\\"", "x", "\t", "\x00", "\xff", "true"}
 
-func genChallenge(r *hk.Rand) string {
-	if r.Chance(30) {
-		a := hk.Pick(r, algVariants(r))
-		if r.Bool() {
-			a = "\"" + a + "\""
-		}
-		return "Digest realm=\"r\", nonce=\"n\", qop=\"" + hk.Pick(r, []string{"auth", "auth-int", "auth,auth-int", ""}) + "\", algorithm=" + a
+func genAlgChallenge(r *hk.Rand) string {
+	a := hk.Pick(r, algVariants(r))
+	if r.Bool() {
+		a = "\"" + a + "\""
 	}
+	return "Digest realm=\"r\", nonce=\"n\", qop=\"" + hk.Pick(r, []string{"auth", "auth-int", "auth,auth-int", ""}) + "\", algorithm=" + a
+}
+
+func genChallenge(r *hk.Rand) string {
 	switch r.Intn(6) {
 	case 0, 1:
 		return hk.Pick(r, challengeVals)
@@ -105,6 +106,10 @@ func genParserCases(r *hk.Rand, quick bool, add func(*Case)) {
 		add(&Case{Kind: "altsvc", Shape: "altsvc-value", Input: genAltSvc(r)})
 	}
 	for i := 0; i < n/2; i++ {
+		if i%3 == 0 {
+			add(&Case{Kind: "challenge", Shape: "digest-challenge-alg", Input: genAlgChallenge(r)})
+			continue
+		}
 		add(&Case{Kind: "challenge", Shape: "digest-challenge", Input: genChallenge(r)})
 	}
 	for i := 0; i < n/2; i++ {
@@ -225,6 +230,18 @@ func judgeParser(r *hk.Run, cs *Case, res *Result) {
 		r.Count("challenge:" + o.ErrCls)
 		if isASCII(cs.Input) && cs.Input != "" {
 			coq = fmt.Sprintf("ChallengeCase %s %s", hk.CoqStr(cs.Input), hk.CoqBool(o.ErrCls != "bad-challenge" && o.ErrCls != "charset"))
+			if cs.Shape == "digest-challenge-alg" {
+				// the algorithm check comes first in authorize: 0 not parsed, 1 algorithm refused, 2 accepted
+				n := 2
+				switch o.ErrCls {
+				case "bad-challenge", "charset":
+					n = 0
+				case "alg":
+					n = 1
+				}
+				coq = fmt.Sprintf("DigestAlgCase %s %s", hk.CoqStr(cs.Input), hk.CoqN(uint64(n)))
+				r.Count("coq:digest-alg")
+			}
 		}
 	case "sniff":
 		r.Count("sniff:" + map[bool]string{true: "none", false: "found"}[o.Name == ""])
